@@ -2812,3 +2812,5 @@ for _patch, _what in (("probe-init-plain-dict", "Continuum.__init__ keeps the an
 for _p in _ALL:
     VARIANTS.append(dict(prop=_p, id="r15/benign-guard-message-enriched", kind="B", rule="", patch=_os.path.join(_HP, "benign-guard-message-enriched.diff"),
                          note="the zero-length error names the start time and the annotator (reads of the arguments only)"))
+VARIANTS.append(dict(prop="C04", id="r17/broken-positions-sorted-in-place", kind="M", rule="R-C04-5", patch=_os.path.join(_HP, "broken-positions-sorted-in-place.diff"),
+                     note="the numerical positions sorted in place before they are handed over, the labels left in the order given"))
